@@ -29,6 +29,7 @@ def native_plan(tier):
         ('lattice_ops_le3', pairs(3, k, v) + ';' + pairs(3, k, v), 'all pairs of lattice indices built from <= 3 inserts each'),
         ('noindex_ops_le3', pairs(3, '0', v) + ';' + pairs(3, '0', v), 'all pairs of no-index vectors of <= 3 rows'),
         ('combined_view_native', '0-3;0-1;0-1;0-2;5;6;0-3;0-1;0-1;0-2;7;8', 'all combinations of two fake indices (len, is_empty, key present, 0..2 values)'),
+        ('trusted_base_conformance_le3', pairs(3, '0-2', '0-2') + ';' + pairs(3, '0-2', '0-2'), 'the ASSUMED contracts (hashbrown = std model, drain, or_default, extend, once, BTreeSet ops) against the real dependencies on all inputs of <= 3 pairs'),
         ('forwarders_native', '0-2;0-2;0-1;0-1;7;0-1;0-1;8;0-1;0-1;9', 'the &mut T / &T forwarding impls against a recording implementor, small keys/values'),
     ]
 
